@@ -285,8 +285,11 @@ def ops_tree(rng, qs, fit_p):
     return o
 
 
-NAMES = ["flour", "sugar", "tuna", "chicken of the sea", "salt", "water", "olive oil", "eggs", "Milk",
+NAMES = ["flour", "sugar", "tuna", "chicken of the sea", "salt", "water", "olive oil", "eggs", "Milk", "milk",
          "butter", "crème fraîche", "dough", "rice", "onion"]
+# units of the bundled converter with fractions enabled (imperial): fit moves totals between them
+FRACTION_UNITS = ["tsp", "tbsp", "cup", "fl oz", "pint", "quart", "gallon", "oz", "lb", "inch", "ft"]
+QUARTER_RANGES = ["1-1.25", "2-2.25", "0.5-0.75", "1-1.5", "0.25-0.5", "3-3.5", "1.5-1.75", "2-2.5", "0.75-1.25"]
 RECIPE_NAMES = ["./sauces/tomato sauce", "base/stock.cook", "pesto"]
 ALIASES = ["oil", "tuna", "white sugar", "H2O", "sauce"]
 COOKWARE = ["pan", "big bowl", "pot", "oven tray"]
@@ -297,6 +300,10 @@ def gen_qty_text(rng, units):
     r = rng.random()
     if r < 0.15:
         return ""
+    if rng.random() < 0.12:
+        # range totals in fraction-enabled units: group_ingredients fits them, often into another unit
+        fu = [u for u in FRACTION_UNITS if u in units] or units
+        return rng.choice(QUARTER_RANGES) + "%" + rng.choice(fu)
     if r < 0.3:
         v = str(rng.choice([1, 2, 3, 10, 250]))
     elif r < 0.45:
@@ -344,12 +351,14 @@ def gen_recipe(rng, units):
                         name, mod = rng.choice(RECIPE_NAMES), "@"
                     else:
                         name = rng.choice(NAMES)
+                        if rng.random() < 0.12:
+                            name = name[:1].upper() + name[1:]   # sentence-start spelling: a different listed name
                         mod = rng.choice(["", "", "", "", "", "", "-", "-", "?", "+"])
                     alias = "|" + rng.choice(ALIASES) if rng.random() < 0.12 else ""
                     frags.append("@%s%s%s{%s}" % (mod, name, alias, q))
                     defined.append(name)
             elif r < 0.9:
-                v = rng.choice(["", "1", "2", "big", "1-2", "large", "3"])
+                v = rng.choice(["", "1", "2", "big", "1-2", "large", "3", "large", "big"])
                 if cw_defined and rng.random() < 0.4:
                     frags.append("#&%s{%s}" % (rng.choice(cw_defined), v))
                 else:
@@ -366,8 +375,8 @@ def display_guess(text):
     """names a recipe text may list (generator side estimate, used only to aim the aisle files)"""
     out = set()
     for n in NAMES + ALIASES:
-        if n in text:
-            out.add(n)
+        if n in text or (n[:1].upper() + n[1:]) in text:
+            out.add(n)       # the aisle file gets the plain spelling also when the recipe capitalises it
     for n in RECIPE_NAMES:
         if n in text:
             out.add(posixpath.splitext(posixpath.basename(n))[0])
@@ -735,6 +744,19 @@ def _run(rep, tier, rng, audit, runner, exe, table, env, open_classes):
         qs = gen_multiset(rng, keys, i * 11 + 1, temp_keys, maxn=5)
         for p in sorted(set(itertools.permutations(range(len(qs))))):
             a_cases.append((ops_fold([qs[j] for j in p]), False, "perm"))
+    fkeys = [u for u in FRACTION_UNITS if u in keys]
+    for i in range((500 if quick else 9000) if fkeys else 0):
+        base = rng.choice(fkeys)
+        same_pq = [u for u in fkeys if table[hx(u)][1] == table[hx(base)][1]]
+        qs = []
+        for _ in range(rng.randint(1, 4)):
+            if rng.random() < 0.75:
+                a = rng.randint(0, 16) / 4.0
+                v = ("r", a, a + rng.choice([0.25, 0.5, 0.75, 1.0, 1.25]))
+            else:
+                v = ("n", rng.randint(1, 24) / 4.0)
+            qs.append((v, base if rng.random() < 0.7 else rng.choice(same_pq)))
+        a_cases.append((ops_fold(qs) + ["F"], False, "fitrange"))
     tk = sorted(temp_keys)
     for i in range(600 if quick else 9000):
         qs = [((gen_value(rng, False)), rng.choice(tk + tk + ["g", None, "bag"])) for _ in range(rng.randint(1, 6))]
@@ -766,6 +788,10 @@ def _run(rep, tier, rng, audit, runner, exe, table, env, open_classes):
             v_cases.append(c.split(" ")[1:])
     for i in range(1500 if quick else 30000):
         vs = [gen_value(rng) for _ in range(rng.randint(0, 8))]
+        if vs and rng.random() < 0.3:
+            t = ("t", rng.choice(TEXTS))          # the same text several times: a multiset, not a set
+            for _ in range(rng.randint(2, 3)):
+                vs.insert(rng.randint(0, len(vs)), t)
         toks = ["Q" + vtok(v) for v in vs]
         if rng.random() < 0.5 or len(vs) < 2:
             v_cases.append(["E"] + toks)
@@ -891,17 +917,21 @@ def _run(rep, tier, rng, audit, runner, exe, table, env, open_classes):
     common.proof_coverage(rep, "C10", audit, tier,
                           "quantity.rs 285-600 (compatible_unit, try_add, GroupedQuantity, GroupedValue), convert/mod.rs "
                           "convert to a unit (465-503, 631-725), model.rs 193-205, 246-273, 334-353, ingredient_list.rs "
-                          "77-135, 165-223, 258-285; Quantity::fit is a parameter (amount preservation is C09), "
+                          "77-135, 165-223, 258-285; Quantity::fit: a parameter in the generic theorems, the model of "
+                          "Model/Convert.v (fit, fit_fraction, try_fraction; C09) in C10_fit_range_preserves, "
+                          "C10_fit_real_preserves, C10_fit_bundled, C10_list_bundled (Proofs/GroupFit.v); in the "
+                          "extracted runner fit is the identity and after fit only totals are compared; "
                           "Path::file_stem an oracle; f64 modelled by exact rationals")
     n_eval = len(a_lines) + len(v_lines) + len(r_lines)
     rep.coverage.update({
         "evaluations": n_eval, "distinct_nontrivial": len(distinct),
         "rule": "seeded: %d multisets (size<=12; integers, decimals, ranges, text, a few negatives; units: every one of the "
                 "%d keys of the live bundled converter in turn, unknown units, none) folded in order; %d random split/merge "
-                "trees with fit; all distinct permutations of %d multisets of size<=5; a labelled temperature stream "
+                "trees with fit; range totals in fraction-enabled imperial units followed by fit; all distinct permutations of %d multisets of size<=5; a labelled temperature stream "
                 "(offset units, sum taken in the first unit); %d GroupedValue programs; %d sequences of 1-4 generated "
                 "recipes (parsed by the real parser: references, hidden, recipe references, aliases, intermediate "
-                "references, duplicate=ref mode, default scale or a factor) x %d aisle files built against their names "
+                "references, names differing only in letter case, quarter ranges in fraction-enabled imperial "
+                "units, repeated equal cookware texts, duplicate=ref mode, default scale or a factor) x %d aisle files built against their names "
                 "(hits, misses, synonym collisions, a category called `other`); corpus and the section-7 witness first. "
                 "distinct_nontrivial = distinct implementation outputs among cases with >=2 quantities / a non-empty list"
                 % (n_multi, len(keys), n_tree, n_perm_sets, len(v_lines), n_seq, n_aisle),
@@ -914,7 +944,8 @@ def _run(rep, tier, rng, audit, runner, exe, table, env, open_classes):
     })
     rep.assumptions = [
         "f64 addition/multiplication modelled by exact rationals; deviation bounded by the tolerance and reported",
-        "Quantity::fit preserves the amount (property C09); here it is only monitored through totals",
+        "Quantity::fit preserves the amount: proved for the C09 model of fit (C10_fit_range_preserves); the "
+        "implementation's fit is monitored through totals (both ends of ranges), not compared step by step",
         "HashMap iteration order of `unknown` is not modelled; outputs are compared sorted by unit text",
     ]
 
